@@ -699,7 +699,7 @@ def run(chk):
     from py2coq import readerflow, TranslationError
     rng = chk.rng
     quick = chk.tier == "quick"
-    n_gen, budget, n_walk, n_bytes, n_frag = (12, 6000, 400, 400, 3500) if quick else (60, 120000, 4000, 5000, 40000)
+    n_gen, budget, n_walk, n_bytes, n_frag = (12, 5000, 400, 400, 3500) if quick else (60, 120000, 4000, 5000, 40000)
     # ---- tie T
     trans = None
     try:
@@ -724,7 +724,7 @@ def run(chk):
     chk.cov["base_documents"] = {"read_by_all_four_readers": len(sources), "oracle_failures_undamaged": len(prefails),
                                  "skipped_with_note": notes}
     specs, total = C.enumerate_cases(rng, sources, budget, forced_cap=(1500 if quick else 12000),
-                                      typed_cap=(1800 if quick else None))
+                                      typed_cap=(1500 if quick else None))
     chk.cov["damage_cases_enumerated"] = total
     chk.cov["damage_cases_run"] = len(specs)
 
